@@ -1,22 +1,25 @@
 import ComposeVerif.Spec.Interp
 /-!
-# C08 — statements the unchanged tree falsifies (concrete witnesses, `by decide`)
+# C08 — statements the tree falsified before the repair `fix: integer and float interpolation casts read numbers
+# like YAML does` (pre-fix behaviour = `parseIntDecimal`, i.e. `strconv.Atoi` / `ParseInt(_, 10, 64)`)
 
-Replayed on the real code by `corpus/C08/yaml-leading-zero-mode.json` (oracle key
-`typed:yaml-number-syntax:leading-zero`, findings/C08.txt).
+The corpus cases `corpus/C08/yaml-*.json` replay these spellings on the real code on every run: they now pass
+(`fixed:` lines in findings/C08.txt); the promoted theorem is `Props/C08.lean: literal_eq_variable_int`.
 -/
 namespace CV.Interp
 
-/-- "supplying an integer through a variable gives the value of the plain literal" fails for the YAML 1.1 octal
-    spelling: the literal `0440` is 288 for yaml.v3, the casters (`strconv.Atoi` / `ParseInt` base 10) make it 440 -/
-theorem literal_eq_variable_int_false : ¬ (∀ s i, yamlLegacyOctal s = some i → parseInt s = some i) := by
+/-- with the decimal casters "a variable gives the value of the plain literal" failed for the YAML 1.1 octal
+    spelling: the literal `0440` is 288 for yaml.v3, `strconv.Atoi` made it 440 -/
+theorem decimal_casters_literal_eq_variable_false :
+    ¬ (∀ s i, yamlInt s = some i → parseIntDecimal (String.toList s) = some i) := by
   intro h
   have := h "0440" 288 (by decide)
   revert this
   decide
 
-/-- … and the other YAML integer spellings are rejected outright by the casters -/
-theorem yaml_prefixed_ints_rejected :
-    parseInt "0x10" = none ∧ parseInt "0o17" = none ∧ parseInt "0b11" = none ∧ parseInt "1_000" = none := by decide
+/-- … and the other YAML integer spellings were rejected outright -/
+theorem decimal_casters_reject_yaml_ints :
+    parseIntDecimal "0x10".toList = none ∧ parseIntDecimal "0o17".toList = none ∧
+    parseIntDecimal "0b11".toList = none ∧ parseIntDecimal "1_000".toList = none := by decide
 
 end CV.Interp
